@@ -488,10 +488,20 @@ class C11(Oracle):
                               for a, _ in strref.replace_matches(ctx.pre.text, op['old'], op.get('count', -1))]
             ctx.world.count('probe:replace_plain_with_escape')
 
+    def _foreign(self, ctx, posts, name):
+        """The text differs from str's (C10's business, not claimed), so the character correspondence the
+        clause needs is not available.  What still follows from it under ANY correspondence: a surviving
+        character reports the settings of SOME character of the original."""
+        ctx.world.count('skipped:c11_text_differs_from_str')
+        have = set(ctx.pre.cells)
+        for j, o in enumerate(posts):
+            for i, cell in enumerate(o.cells):
+                require(cell in have, name + '.settings_of_no_original_character', piece=j, index=i, got=list(cell),
+                        original=ctx.pre.to_json(), text=o.text)
+
     def _cmp(self, ctx, post, exp, name, **extra):
         if post.text != exp.text:
-            # text agreement with str is C10's business (not claimed): clause unevaluable
-            ctx.world.count('skipped:c11_text_differs_from_str')
+            self._foreign(ctx, [post], name)
             return
         _expect(post, exp, name, **extra)
 
@@ -528,7 +538,7 @@ class C11(Oracle):
             else:
                 exps = models.m_partition(pre, op['how'], op['sep'])
             if post is None or [o.text for o in post] != [e.text for e in exps]:
-                ctx.world.count('skipped:c11_text_differs_from_str')
+                self._foreign(ctx, post or [], k)
                 return
             cps = set(pre.change_points())
             if len(exps) >= 2 and any(pre.cells):
